@@ -2,6 +2,7 @@ package sa
 
 import (
 	"fmt"
+	"go/types"
 	"os"
 	"path/filepath"
 	"runtime/debug"
@@ -15,6 +16,8 @@ type Ctx struct {
 	*Prog
 	A *Anchors
 	R *Report
+
+	madeMemo map[*types.Var]bool
 }
 
 // PropertySpec describes one property's rule set.
@@ -55,7 +58,7 @@ func runConfig(spec *PropertySpec, lc LoadConfig, rep *Report) (npk int, err err
 	}
 	if len(a.Errs) == 0 {
 		rep.Anchor("A0", "anchor table (Conn fields by role, teardown, connect routine, members, handler tables)", true)
-		spec.Run(&Ctx{prog, a, rep})
+		spec.Run(&Ctx{Prog: prog, A: a, R: rep})
 	}
 	return prog.NPkgs, nil
 }
